@@ -193,7 +193,7 @@ def main():
             st['evaluations'] += 1
             for nd in spec['nodes']:
                 dist['mode:' + nd['mode']] += 1
-            res = model.run(spec, obs['actions'], obs['orders'], obs['descendants'])
+            res = model.run(spec, obs['actions'], obs['orders'], obs['descendants'], obs=obs)
             if not res.get('ambiguous_orders'):
                 st['k2_compared'] += 1
                 d = M.compare(obs, res)
